@@ -3,6 +3,7 @@
 From Coq Require Import List Bool Arith ZArith.
 From HV Require Import Ord Sprout Tree TreeLemmas TreeInv TreeRun.
 From HV Require Import DriverPrim Driver DriverFacts GenDriver GenEquivDriver DriverCode GenStops GenEquivStops.
+From HV Require Import Minimize GenMinimize GenEquivMinimize.
 Import ListNotations.
 
 (* the run ends only through a TRUE consult at a metaepoch boundary, and nothing happens afterwards *)
@@ -123,3 +124,14 @@ Print Assumptions C05_translated_DontRun.
 Theorem C05_levels_ok_always c s : WFT c s -> levels_ok c (demes s).
 Proof. exact (WFT_levels_ok c s). Qed.
 Print Assumptions C05_levels_ok_always.
+
+(* ---------------------------------------------------------------- minimize(), TRANSLATED from the current pyhms/hms.py (Gen/GenMinimize.v):
+   which wrappers it puts on the problem both levels share, which stop condition it chooses, what it reports *)
+Theorem C05_translated_minimize_stop_condition b k maxiter :
+  pl_gsc (gen_minimize_plan (Some b) maxiter) = ByEvals b /\ pl_gsc (gen_minimize_plan None (Some k)) = ByMetaepochs (Some k) /\
+  exists d, pl_gsc (gen_minimize_plan None None) = ByEvals d /\ (0 < d)%Z.
+Proof.
+  rewrite plan_with_maxfun, plan_with_maxiter_only. split; [reflexivity|]. split; [reflexivity|].
+  destruct plan_default as (d & -> & Hd). exists d. split; [reflexivity|exact Hd].
+Qed.
+Print Assumptions C05_translated_minimize_stop_condition.
